@@ -176,7 +176,7 @@ CHECKS['C03'] = dict(
           'ExcelModel.from_dict(...).calculate() on random acyclic multi-sheet/multi-book workbooks; the '
           'implementation is additionally run in permuted insertion orders, through .xlsx files (all books loaded, and '
           'each book loaded alone with finish() bringing in the others) and under several PYTHONHASHSEED values, and '
-          'all results must coincide. Known finding: cross-book-name.'),
+          'all results must coincide; array formulas whose result has another shape than their range (every pair of small shapes) and constants of extreme magnitude are part of the workbooks. Known finding: cross-book-name.'),
     design='DESIGN.md §3 C03',
     note=COMMON_NOTE + 'schedula (dispatch order, shrink), numpy and openpyxl are external: the model evaluates a workbook '
          'by recursion on its references. Hash-seed independence and the equivalence of the file and dictionary paths '
@@ -193,7 +193,7 @@ CHECKS['C07'] = dict(
           'function of (workbook, inputs), so history independence holds of it by construction; the check supplies '
           'override sets over constants, formula cells, blanks, multi-cell ranges and reference-valued names to a live '
           'ExcelModel after random histories of calculate/compile/to_dict/write/deepcopy, to a freshly built model and '
-          'to the Lean model, and compares every cell; restricted output lists must return the same values.'),
+          'to the Lean model, and compares every cell; restricted output lists must return the same values; values supplied through a range or name must give what the same values supplied cell by cell give (ranges over formula cells and over cells supplied on their own included).'),
     design='DESIGN.md §3 C07',
     note=COMMON_NOTE + 'The history-independence half of the property is about mutable state of the Python objects: it is '
          'observed (live vs fresh model), not proved; so is the last solution of the model after compile / to_dict / deepcopy. Known findings range-override-all-blank-range and outputs-restricted-unlisted-blanks (from_dict models whose ranges consist of unlisted blank cells).',
@@ -221,7 +221,7 @@ CHECKS['C09'] = dict(
           'tokeniser as exactly one string literal whose body is the doubled text) — the part of the export that had '
           'the defects repaired by a fix: commit; export_reparse_instances (kernel-checked instances of "exported '
           'text parses back to itself"); export_reparses — for EVERY canonical tree the exported (fully parenthesised) '
-          'token list parses back to the tree, any depth; signrun_export_counterexample (known finding); '
+          'token list parses back to the tree, any depth; export_text_reparses / export_text_fixed_point — the same ON THE CHARACTERS: for every render-stable tree the parser model (tokeniser loop with blanks, ten filters, shunting-yard) reads "=" followed by the exported text back as the tree (XL.Proofs.LexBlanks; driver command rtext: the implementation must re-export exactly that text); signrun_export_counterexample (known finding); '
           'blank_listing_schedule_independent / _order_independent / _fixed_point — the cells exported as #EMPTY are '
           'the least stable listing of range assembly whatever the schedule, and a second export lists nothing new '
           '(XL.Proofs.Blanks; the model closure is compared with _assemble_ranges on random range sets). The check runs json.dumps(to_dict()) -> from_dict -> calculate -> to_dict '
@@ -263,7 +263,7 @@ CHECKS['C14'] = dict(
           'fault_local (changing how one address is defined leaves every cell that does not depend on it unchanged — '
           'an instance of the locality theorem of the workbook model), fault_interceptable (IFERROR/ISERROR see an '
           'ordinary error value). The check injects faults (unknown function, _xlfn. function, absent sheet, absent or '
-          'unreadable workbook file, undefined name, #REF! literal) at random formula cells of random workbooks, '
+          'unreadable workbook file, undefined name, #REF! literal, reference to a deleted sheet #REF!A1) at random formula cells of random workbooks, '
           'loads them from .xlsx files and from a dictionary (finish() included), requires that nothing raises, '
           'compares every cell with the Lean model and every unaffected cell with the fault-free twin workbook, and '
           'probes the faulty cells with IFERROR/ISERROR.'),
